@@ -61,3 +61,13 @@ Definition sext (st st' : list thunk) : Prop :=
 (* what a pure evaluation leaves alone *)
 Definition quiet (s s' : lstate) : Prop :=
   l_scoped s' = l_scoped s /\ l_edges s' = l_edges s /\ l_attrs s' = l_attrs s /\ l_prints s' = l_prints s /\ l_prev s' = l_prev s.
+
+(* the execution phase of File::execute_lazy_into: all (stanza, match) blocks, before anything is evaluated *)
+Definition lexec_matches {rx : Type} (t : tree) (fl : file) (cfg : config) (glob : globals) (regexes : list rx)
+    (find : rx -> str -> option (list (option (N * N)))) (call : ident -> graph -> list value -> res (value * graph))
+    (fuel : nat) (ms : list (N * qmatch)) : M lstate unit :=
+  iterM (fun pm : N * qmatch =>
+           match nth_error (f_stanzas fl) (N.to_nat (fst pm)) with
+           | Some st => lexec_stanza t fl cfg glob regexes find call fuel st (snd pm)
+           | None => panic P_stanza_index
+           end) ms.
